@@ -369,26 +369,48 @@ def r2(ctx: Ctx) -> None:
     cp = commit_point_call(ctx, f)
     held = ctx.calls(f, lock="is_held")
     mw = ctx.calls(f, name="_write_metadata_file")
-    ctx.ob("C08.R2", f, "fence exists and follows the metadata write", held[0] if held else None,
-           bool(held) and bool(mw) and any(m.id in dom[held[0].id] for m in mw) and held[0].id in dom[cp.id],
+    wf, wg, wtargets = f, g, [cp]
+    if not held:
+        # the fence may live next to the write it guards: at the head of the commit-point function itself
+        for t in ctx.eff.callees(f, cp):
+            h2 = ctx.calls(t, lock="is_held")
+            hw = hint_write_nodes(ctx, t)
+            if h2 and hw:
+                wf, wg, wtargets, held = t, ctx.cfg(t), hw, h2
+                dom = ctx.dom(t, ALL)
+                break
+    in_commit = wf is f
+    ctx.ob("C08.R2", f, "fence exists and follows the metadata write", held[0] if held and in_commit else None,
+           bool(held) and bool(mw) and (any(m.id in ctx.dom(f, ALL)[held[0].id] for m in mw) if in_commit else
+                                        any(m.id in ctx.dom(f, ALL)[cp.id] for m in mw)) and all(held[0].id in dom[x.id] for x in wtargets),
            "lock ownership is re-validated after the (slow) metadata write and before the pointer flip")
     for h in held:
-        brs = [b for b in g.nodes if b.kind == "branch" and b.stmt is h.stmt]
+        brs = [b for b in wg.nodes if b.kind == "branch" and b.stmt is h.stmt]
         ok = False
         for b in brs:
-            fl = edge_target(g, b, "false")
+            fl = edge_target(wg, b, "false")
             if fl is not None:
-                reach = reachable_from(g, fl, NORMAL)
-                rs = [g.nodes[x] for x in reach if g.nodes[x].kind == "raise"]
-                ok = bool(rs) and cp.id not in reach and all(r.raised == "ConcurrentModificationException" for r in rs)
-        ctx.ob("C08.R2", f, "lost lock -> ConcurrentModificationException", h, ok,
+                reach = reachable_from(wg, fl, NORMAL)
+                rs = [wg.nodes[x] for x in reach if wg.nodes[x].kind == "raise"]
+                ok = bool(rs) and not any(x.id in reach for x in wtargets) and all(r.raised == "ConcurrentModificationException" for r in rs)
+        # ... and the conflict leaves the function as it is (not re-labelled 'ambiguous' by a handler around the write)
+        if ok and not in_commit:
+            esc = ctx.eff.escapes.get(wf.qname, frozenset())
+            ok = "ConcurrentModificationException" in esc or "Exception" in esc
+            for b in brs:
+                fl = edge_target(wg, b, "false")
+                for x in reachable_from(wg, fl, NORMAL) if fl is not None else []:
+                    nx = wg.nodes[x]
+                    if nx.kind == "raise" and any(fr.kind == "try" and fr.part == "body" and getattr(fr.node, "handlers", None) for fr in nx.frames):
+                        ok = False  # raised inside a try whose handlers re-classify it
+        ctx.ob("C08.R2", wf, "lost lock -> ConcurrentModificationException", h, ok,
                "a holder whose lease was broken reports a retryable conflict, never success")
-        between = [n for n in g.calls() if n.id in reachable_from(g, h.id, NORMAL) and cp.id in reachable_from(g, n.id, NORMAL)
-                   and n.id not in (h.id, cp.id) and (ctx.eff.storage_op(n) or ctx.eff.callees(f, n))
+        between = [n for n in wg.calls() if n.id in reachable_from(wg, h.id, NORMAL) and any(x.id in reachable_from(wg, n.id, NORMAL) for x in wtargets)
+                   and n.id not in [h.id] + [x.id for x in wtargets] and (ctx.eff.storage_op(n) or ctx.eff.callees(wf, n))
                    and not (n.callee and n.callee.kind == "ctor")]
-        ctx.ob("C08.R2", f, "no storage call between fence and commit point", h, not between,
+        ctx.ob("C08.R2", wf, "no storage call between fence and commit point", h, not between,
                "the fence is immediately before the commit point",
-               witness=[f"{f.file}:{n.lineno} {n.text}" for n in between] or None)
+               witness=[f"{wf.file}:{n.lineno} {n.text}" for n in between] or None)
 
 
 PRECOND = ("IfMatch", "IfNoneMatch")
